@@ -33,7 +33,7 @@ RULE = (
     "option strings: per grammar (timeout, csv-int, error codes, array lengths, trace events) valid strings from unparse of "
     "random values, hand-listed malformed strings and random character mutations; distinct by string. "
     "timeouts: every k ms for k in [0,10^5] through the real parse/unparse/parse plus decimal strings with units. "
-    "TOML dicts, natspec texts, devdoc/natspec annotated artifacts through the real with_natspec/with_devdoc/run_tests/_main loops."
+    "TOML: every Config option x every native toml value form (bare ints/floats/bools/arrays/tables/dates and quoted strings) through the real parse_str, then random TOML dicts; natspec texts, devdoc/natspec annotated artifacts through the real with_natspec/with_devdoc/run_tests/_main loops."
 )
 TRUSTED = [
     "Driver/Config.lean string/token (de)serialisation and tools/props/c18.py canonicalisers and grammar oracles",
@@ -802,9 +802,11 @@ def check_parser_strings(ctx, kind, strings, origin="gen"):
                 raise RuntimeError(f"stale model: {k} unparse({v!r}) = {ru!r}, model {mr if not mr.startswith('ok ') else dec_u(mr[3:])!r}")
 
 
-def check_parsers(ctx, pool):
+def check_parsers(ctx, pool, only=None):
     n = ctx.scale(700, 6000)
     for kind in PARSERS:
+        if only is not None and kind != only:
+            continue
         strings = list(FIXED_STRINGS[kind])
         for _ in range(n):
             s = gen_valid(ctx.rng, kind, pool)
@@ -991,6 +993,10 @@ def vtok(v) -> str:
         return "S:" + enc_u(v)[2:]
     if isinstance(v, float):
         return "F:" + enc_u(str(v))[2:]
+    if isinstance(v, list) and all(isinstance(x, int) and not isinstance(x, bool) for x in v):
+        return "L:" + show_ints(v)
+    if isinstance(v, dict) and not v:
+        return "D:{}"
     return "O"
 
 
@@ -1041,10 +1047,10 @@ def gen_toml(rng, pool):
                 rr = rng.random()
                 if rr < 0.6:
                     v = gen_valid(rng, kind, pool)
-                elif rr < 0.8:
+                elif rr < 0.75:
                     v = rng.choice(FIXED_STRINGS[kind])
-                elif rr < 0.9:
-                    v = rng.choice([0, 1, 5, True, False, 1.5, 0.25, [1, 2], 100])
+                elif rr < 0.93:
+                    v = rng.choice([0, 1, 5, True, False, 1.5, 0.25, [1, 2], 100, 1000, 250, -3, [], {}, ["LOG"], rng.choice(pool)])
                 else:
                     v = mutate(rng, gen_valid(rng, kind, pool))
                 if kind == "timeout" and isinstance(v, str) and re.search(r"[eE][-+_]*[\d_]{3,}", v):
@@ -1073,8 +1079,193 @@ def gen_toml(rng, pool):
     return {"a": 1, "b": 2}
 
 
-def check_toml(ctx, pool):
+def toml_form(v) -> str:
+    for t, n in ((bool, "bool"), (int, "int"), (float, "float"), (str, "str"), (list, "array"), (dict, "table")):
+        if isinstance(v, t):
+            return n
+    return "other"
+
+
+def oracle_toml_value(kind, v):
+    """What a config-file value of a structured option means (documented syntax; a bare number for a timeout is a number of
+    milliseconds exactly as on the command line; every other structured option is a string in its grammar)."""
+    if isinstance(v, str):
+        return PARSERS[kind][1](v)
+    if kind == "timeout":
+        if isinstance(v, bool) or not isinstance(v, (int, float)):
+            return ("err", "value")
+        return oracle_timeout(str(v))
+    # every other native value is malformed — including the falsy ones (0, false, [], {}) for array-lengths, which the code reads
+    # as "no lengths" (`if not values: return {}`): known finding TomlParser.parse_dict:falsy-native:lengths:accepts-malformed
+    return ("err", "reject")
+
+
+def value_same(kind, real, want) -> bool:
+    if kind == "timeout":
+        return isinstance(real, float) and time_close(real, want)
+    if kind == "events":
+        return isinstance(real, list) and [getattr(x, "value", None) for x in real] == want and all(not isinstance(x, str) for x in real)
+    if kind == "plain":
+        if isinstance(want, float) and math.isnan(want):
+            return isinstance(real, float) and math.isnan(real)
+        return toml_form(real) == toml_form(want) and (type(real) is type(want) or isinstance(want, (list, dict))) and real == want
+    return type(real) is type(want) and values_equal(kind, real, want)
+
+
+def toml_expected(doc):
+    """('exit2',) | ('reject', key, form, kind) | ('ok', {key: (kind, value)})"""
+    if list(doc.keys()) != ["global"]:
+        return ("exit2",)
+    data = doc["global"]
+    if not isinstance(data, dict):
+        return ("reject", "global", toml_form(data), "section")
+    out = {}
+    for k, v in data.items():
+        key = k.replace("-", "_")
+        kind = TOML_ACTIONS.get(key)
+        if kind is None:
+            out[key] = ("plain", v)
+            continue
+        o = oracle_toml_value(kind, v)
+        if o[0] == "err":
+            return ("reject", k, toml_form(v), kind)
+        out[key] = (kind, o[1]) if len(o) == 2 else (kind, o[1], o[2])
+    return ("ok", out)
+
+
+def check_toml_docs(ctx, docs, origin="gen", texts=None):
+    """real TomlParser (parse_dict, or parse_str when the toml text is given) vs the documented meaning (violation) vs the Model
+    (stale model, raised only after every document has been compared with the oracle); then the file layer is applied on top of
+    the defaults and the option is resolved."""
     hc = H()["hc"]
+    names = set(field_names())
+    reps = ctx.lean("Config").ask([toml_req(d) for d in docs])
+    stale = []
+    for i, (doc, mrep) in enumerate(zip(docs, reps)):
+        text = texts[i] if texts else None
+        if text is not None:
+            real = real_call(hc.toml_parser().parse_str, text)
+        else:
+            real = real_call(hc.toml_parser().parse_dict, dict(doc))
+        ctx.count("toml." + (real[0] if real[0] == "ok" else real[1]))
+        replay = {"kind": "toml", "doc": doc, "origin": origin} if text is None else {"kind": "toml-text", "text": text, "origin": origin}
+        exp = toml_expected(doc)
+        desc = text if text is not None else doc
+        if exp[0] == "exit2":
+            if real != ("err", "exit2"):
+                ctx.violation("TomlParser.parse_dict:accepts-non-global", f"parse({desc!r}) -> {real}", replay)
+                continue
+        elif exp[0] == "reject":
+            _, k, form, kind = exp
+            ctx.count(f"toml.form.{kind}.{form}.rejected")
+            if real[0] == "ok":
+                raw = doc["global"][k]
+                if kind == "lengths" and not isinstance(raw, str) and not raw and real[1].get(k.replace("-", "_")) == {} \
+                        and isinstance(real[1].get(k.replace("-", "_")), dict):
+                    # silently defaulted to "no lengths" (ParseArrayLengths.parse: `if not values: return {}`)
+                    ctx.count(f"toml.falsy-native-lengths.{form}")
+                    ctx.violation("TomlParser.parse_dict:falsy-native:lengths:accepts-malformed",
+                                  f"config file entry `{k} = {raw!r}` (falsy toml {form}) is not an array-lengths value but is accepted and read as {{}} "
+                                  "(ParseArrayLengths.parse: `if not values: return {}`)",
+                                  {"kind": "toml", "doc": {"global": {"array-lengths": 0}}, "forms": ["0", "false", "[]", "{}", "0.0"], "origin": origin})
+                    continue
+                ctx.violation(f"TomlParser.parse_dict:{form}:{kind}:accepts-malformed",
+                              f"config file entry `{k} = {doc['global'][k]!r}` ({form}) is not a value of this option but was accepted: {real[1]}", replay)
+                continue
+            if real[1] == "exit2":
+                ctx.violation(f"TomlParser.parse_dict:{form}:{kind}:exit-instead-of-error", f"parse({desc!r}) -> {real}", replay)
+                continue
+        else:
+            want = exp[1]
+            if real[0] != "ok":
+                ctx.violation("TomlParser.parse_dict:rejects-valid:" + real[1], f"parse({desc!r}) -> {real}, expected {want}", replay)
+                continue
+            got = real[1]
+            bad = None
+            if list(got.keys()) != list(want.keys()):
+                bad = ("keys", list(got.keys()), list(want.keys()))
+            else:
+                for key, w in want.items():
+                    kind, wv = w[0], w[1]
+                    srcs = [k for k in doc["global"] if k.replace("-", "_") == key]
+                    form = toml_form(doc["global"][srcs[-1]])
+                    ctx.count(f"toml.form.{kind}.{form}.accepted")
+                    if len(w) == 3:
+                        ctx.count("toml.tolerated." + w[2])
+                    if not value_same(kind, got[key], wv):
+                        bad = (key, form, kind, got[key], wv)
+                        break
+            if bad:
+                if bad[0] == "keys":
+                    ctx.violation("TomlParser.parse_dict:wrong-keys", f"parse({desc!r}) -> keys {bad[1]}, expected {bad[2]}", replay)
+                else:
+                    key, form, kind, gv, wv = bad
+                    ctx.violation(f"TomlParser.parse_dict:{form}:{kind}:wrong-value",
+                                  f"config file entry `{key}` given as a toml {form} resolved to {gv!r} ({type(gv).__name__}), "
+                                  f"documented meaning {wv!r}; document {desc!r}", replay)
+                continue
+            # the file layer on top of the defaults: unknown keys are rejected, known ones become effective with source config_file
+            r = real_call(hc.default_config().with_overrides, hc.ConfigSource.config_file, **got)
+            unknown = [k for k in got if k not in names]
+            ctx.count("toml.follow." + ("unknown-key" if unknown else "applied"))
+            if unknown:
+                if r != ("err", "exit2"):
+                    ctx.violation("load_config:unknown-key-accepted", f"config file keys {unknown} accepted", replay)
+                    continue
+            elif r[0] != "ok":
+                ctx.violation("load_config:known-key-rejected", f"config file {desc!r} rejected: {r}", replay)
+                continue
+            else:
+                for key, w in want.items():
+                    gv, gs = r[1].value_with_source(key)
+                    if w[1] is None:
+                        continue
+                    if gs.name != "config_file" or not value_same(w[0], gv, w[1]):
+                        ctx.violation(f"load_config:file-value-not-effective:{w[0]}",
+                                      f"{key}: resolved to {gv!r} from {gs.name}, the config file says {w[1]!r}; document {desc!r}", replay)
+        # ---- Model
+        if real[0] == "err":
+            if mrep != "err " + real[1]:
+                stale.append(f"toml {desc!r}: real {real}, model {mrep}")
+        else:
+            ok = mrep.startswith("ok")
+            if ok:
+                mk = [it.split("=", 1) for it in mrep[3:].split(" ") if it]
+                rk = list(real[1].items())
+                ok = [k for k, _ in mk] == [k for k, _ in rk] and all(val_matches(rv, mt) for (_, rv), (_, mt) in zip(rk, mk))
+            if not ok:
+                stale.append(f"toml {desc!r}: real {real}, model {mrep}")
+        ctx.case(("toml", text if text is not None else json.dumps(doc, default=str)))
+    if stale:
+        raise RuntimeError(f"stale model ({len(stale)} documents), first: {stale[0]}")
+
+
+NATIVE_FORMS = ["1000", "0", "1", "3", "-5", "250", "0.5", "1.5", "1e3", "inf", "nan", "true", "false", "[]", "[1, 2]", '["LOG"]', "{}", "{x = 1}",
+                "1979-05-27", '"1000"', '"3"', '"0.5"', '""', "'x={1,2}'", '"*"', '"LOG"', '"0x01"', '"1,2"', '"1s"', '"x"']
+
+
+def check_toml_native(ctx, pool):
+    """every Config option x every native toml value form (bare and quoted), through the real toml reader (`parse_str`)"""
+    import toml
+
+    texts, docs = [], []
+    forms = list(NATIVE_FORMS) + [str(p) for p in pool if abs(p) < 10 ** 9][: ctx.scale(12, 61)]
+    for i, name in enumerate(field_names()):
+        for j, form in enumerate(forms):
+            key = name.replace("_", "-") if (i + j) % 3 else name
+            text = f"[global]\n{key} = {form}\n"
+            texts.append(text)
+            docs.append(toml.loads(text))
+    # a structured option next to others, and the same option under both spellings
+    for form in ("1000", "2.5", '"7s"'):
+        text = f"[global]\nloop = 3\nsolver-timeout-assertion = {form}\nsolver_timeout_branching = {form}\nsolver-timeout_assertion = 9\n"
+        texts.append(text)
+        docs.append(toml.loads(text))
+    check_toml_docs(ctx, docs, "native-forms", texts)
+    ctx.extra["toml_native_forms"] = {"options": len(field_names()), "forms_per_option": len(forms)}
+
+
+def check_toml(ctx, pool):
     docs = [
         {"global": {}}, {}, {"global": {"loop": 3}}, {"weird": {"a": 1}}, {"global": {"a": 1}, "extra": {"b": 2}}, {"a": 1, "b": 2},
         {"global": {"solver-timeout-assertion": "1.5s", "panic-error-codes": "*", "array-lengths": "x={1,2}"}},
@@ -1085,75 +1276,7 @@ def check_toml(ctx, pool):
     ]
     for _ in range(ctx.scale(600, 12000)):
         docs.append(gen_toml(ctx.rng, pool))
-    reps = ctx.lean("Config").ask([toml_req(d) for d in docs])
-    follow = []
-    for doc, mrep in zip(docs, reps):
-        real = real_call(hc.toml_parser().parse_dict, dict(doc))
-        ctx.count("toml." + (real[0] if real[0] == "ok" else real[1]))
-        replay = {"kind": "toml", "doc": doc}
-        # spec-level expectations: exactly one section called `global`
-        well_sectioned = list(doc.keys()) == ["global"]
-        if not well_sectioned and real != ("err", "exit2"):
-            ctx.violation("TomlParser.parse_dict:accepts-non-global", f"parse_dict({doc}) -> {real}", replay)
-            continue
-        if real[0] == "err":
-            if mrep != "err " + real[1]:
-                if well_sectioned and real[1] == "exit2":
-                    ctx.violation("TomlParser.parse_dict:rejects-global", f"parse_dict({doc}) -> {real}", replay)
-                    continue
-                raise RuntimeError(f"stale model: toml {doc} real {real} model {mrep}")
-            ctx.case(("toml", json.dumps(doc, default=str)))
-            continue
-        if not mrep.startswith("ok"):
-            # a malformed structured value was accepted (model rejects) or the model is stale: ask the oracles
-            bad = None
-            for k, v in doc["global"].items():
-                kk = k.replace("-", "_")
-                kind = {"panic_error_codes": "codes", "array_lengths": "lengths", "default_array_lengths": "csvint", "default_bytes_lengths": "csvint",
-                        "trace_events": "events", "solver_timeout_branching": "timeout", "solver_timeout_assertion": "timeout"}.get(kk)
-                if kind and isinstance(v, str) and PARSERS[kind][1](v)[0] == "err":
-                    bad = (k, v)
-            if bad:
-                ctx.violation("TomlParser.parse_dict:malformed-value-accepted", f"parse_dict accepted {bad} -> {real[1]}", replay)
-                continue
-            raise RuntimeError(f"stale model: toml {doc} real {real} model {mrep}")
-        items = [it for it in mrep[3:].split(" ") if it]
-        mk = [it.split("=", 1) for it in items]
-        rk = list(real[1].items())
-        wrong = None
-        for k, v in doc["global"].items():
-            kind = TOML_ACTIONS.get(k.replace("-", "_"))
-            if kind and isinstance(v, str):
-                o = PARSERS[kind][1](v)
-                rv = real[1].get(k.replace("-", "_"))
-                good = o[0] == "ok" and (time_close(rv, o[1]) if kind == "timeout" else
-                                         ([getattr(x, "value", None) for x in rv] == o[1] if kind == "events" else rv == o[1]))
-                if not good and list(doc["global"]).count(k) == 1 and sum(1 for kk in doc["global"] if kk.replace("-", "_") == k.replace("-", "_")) == 1:
-                    wrong = (k, v, rv, o)
-        if wrong:
-            ctx.violation("TomlParser.parse_dict:wrong-or-malformed-value", f"parse_dict gave {wrong[2]!r} for {wrong[0]} = {wrong[1]!r}; documented grammar: {wrong[3]}", replay)
-            continue
-        if [k for k, _ in mk] != [k for k, _ in rk] or not all(val_matches(rv, mt) for (_, rv), (_, mt) in zip(rk, mk)):
-            raise RuntimeError(f"stale model: toml {doc} real {rk} model {mk}")
-        ctx.case(("toml", json.dumps(doc, default=str)))
-        follow.append((doc, real[1]))
-    # unknown keys are rejected when the file layer is applied (with_overrides), never silently dropped
-    names = set(field_names())
-    for doc, res in follow:
-        r = real_call(hc.default_config().with_overrides, hc.ConfigSource.config_file, **res)
-        unknown = [k for k in res if k not in names]
-        if unknown and r != ("err", "exit2"):
-            ctx.violation("load_config:unknown-key-accepted", f"config file keys {unknown} accepted", {"kind": "toml", "doc": doc})
-        elif not unknown:
-            if r[0] != "ok":
-                ctx.violation("load_config:known-key-rejected", f"config file {doc} rejected: {r}", {"kind": "toml", "doc": doc})
-            else:
-                cfg = r[1]
-                for k, v in res.items():
-                    got = cfg.value_with_source(k)
-                    if got[1].name != "config_file" or not values_equal("x", got[0], v) and not (isinstance(v, float) and math.isnan(v)):
-                        ctx.violation("load_config:file-value-not-effective", f"{k}: {got} after applying file layer {res}", {"kind": "toml", "doc": doc})
-        ctx.count("toml.follow." + ("unknown-key" if unknown else "applied"))
+    check_toml_docs(ctx, docs)
 
 
 # ------------------------------------------------------------------------------------------------ natspec / devdoc annotations
@@ -1594,12 +1717,11 @@ def run_one(ctx, data, pool=None):
             ctx.violation("ParseTimeout.unparse:truncates" if timeout_mode() == "truncating" else "ParseTimeout.roundtrip",
                           f"parse(unparse({v!r})) = {back}", data)
     elif kind == "toml":
-        hc = H()["hc"]
-        doc = data["doc"]
-        rep = ctx.lean("Config").ask([toml_req(doc)])[0]
-        real = real_call(hc.toml_parser().parse_dict, dict(doc))
-        if (real[0] == "ok") != rep.startswith("ok"):
-            ctx.violation("TomlParser.parse_dict:replay", f"parse_dict({doc}) -> {real}, model {rep}", data)
+        check_toml_docs(ctx, [data["doc"]], "replay")
+    elif kind == "toml-text":
+        import toml
+
+        check_toml_docs(ctx, [toml.loads(data["text"])], "replay", [data["text"]])
     elif kind == "natspec":
         hb = H()["hb"]
         t = data["text"] or ""
@@ -1619,30 +1741,44 @@ def correspond(ctx):
     H()
     pool = harvest_literals()
     ctx.note(f"harvested {len(pool)} integer literals (with +-1) from the functions under test")
-    run_corpus(ctx, pool)
-    check_char_classes(ctx)
+    deferred = []
+
+    def section(f, *a):
+        # a stale-model error in one section must not hide violations another section would find
+        try:
+            f(*a)
+        except RuntimeError as e:
+            deferred.append(f"{f.__name__}: {e}")
+
+    section(run_corpus, ctx, pool)
+    section(check_char_classes, ctx)
     # exhaustive small scopes
     small = exhaustive_small_stacks()
-    check_stacks(ctx, small, "exhaustive<=3")
-    check_stacks(ctx, exhaustive_solver_stacks(), "exhaustive-solver")
+    section(check_stacks, ctx, small, "exhaustive<=3")
+    section(check_stacks, ctx, exhaustive_solver_stacks(), "exhaustive-solver")
     ctx.extra["exhaustive_small_stacks"] = len(small)
+    section(check_toml_native, ctx, pool)
     # random stacks
     n = ctx.scale(2000, 20000)
     max_layers = 5 if ctx.tier == "quick" else 7
     batch = 500
     for i in range(0, n, batch):
-        check_stacks(ctx, [gen_stack(ctx.rng, pool, max_layers) for _ in range(min(batch, n - i))], "random")
-    check_parsers(ctx, pool)
-    check_timeout_grid(ctx, pool)
-    check_toml(ctx, pool)
-    check_natspec(ctx)
-    check_annotations(ctx, pool)
-    check_load_config(ctx)
-    check_main_loop(ctx)
+        section(check_stacks, ctx, [gen_stack(ctx.rng, pool, max_layers) for _ in range(min(batch, n - i))], "random")
+    for kind in PARSERS:
+        section(check_parsers, ctx, pool, kind)
+    section(check_timeout_grid, ctx, pool)
+    section(check_toml, ctx, pool)
+    section(check_natspec, ctx)
+    section(check_annotations, ctx, pool)
+    section(check_load_config, ctx)
+    section(check_main_loop, ctx)
     ctx.sample({"stack (oldest first)": gen_stack(ctx.rng, pool, 5)})
     ctx.sample({"array-lengths string": gen_valid(ctx.rng, "lengths", pool), "error-codes string": gen_valid(ctx.rng, "codes", pool),
                 "timeout string": gen_valid(ctx.rng, "timeout", pool)})
+    ctx.sample({"toml native forms per option": NATIVE_FORMS})
     ctx.extra["exhaustive"] = False
+    if deferred:
+        raise RuntimeError(f"{len(deferred)} section(s) failed: " + " || ".join(d[:1500] for d in deferred))
 
 
 def replay(ctx, data) -> bool:
